@@ -23,7 +23,8 @@ try:
             dst = os.path.join(wt, pkgdir, "zz_demo_test.go")
             shutil.copy(demo_go, dst)
             names = re.findall(r"^func (Test\w+)\(", src, re.M)
-            rc, out = sh(f"go test -vet=off -count=1 -run '^({'|'.join(names)})$' ./{pkgdir}", cwd=wt)
+            race = "-race " if (os.environ.get("SEED_RACE") or "race detected" in open(os.path.join(d, "meta.json")).read() or "-race" in open(os.path.join(d, "meta.json")).read()) else ""
+            rc, out = sh(f"go test {race}-vet=off -count=1 -run '^({'|'.join(names)})$' ./{pkgdir}", cwd=wt)
             os.remove(dst)
             return rc, out
         else:
